@@ -172,9 +172,13 @@ func VerifC13DeepPath() {
 // faulty nodes (its own error value, or a panic error naming its node path); it never succeeds, hangs or crashes.
 func VerifC13ParallelFaults() {
 	ctx := context.Background()
-	vcfg("preempt", 2)
 	mode := vchoose("mode", 3)
 	names := []string{"a", "b", "c"}[:2+vchoose("width", 1+vtier())]
+	if len(names) == 2 {
+		vcfg("preempt", 2)
+	} else {
+		vcfg("preempt", 1) // three parallel nodes (thorough tier): one pre-emption
+	}
 	kinds := map[string]int{}
 	errsOf := map[string]error{}
 	faults := 0
